@@ -281,9 +281,11 @@ def scan_assumptions(lines, lmap):
                 m = lmap[i] if i < len(lmap) else {}
                 if m.get("canary"):
                     continue
-                if "item" in m:
+                if "item" in m and tag == "external_body":
                     unit = proved_bodies().get(short_item(m["item"]))
                     origin = "contract stub of " + m["item"] + (f"; the same contract is PROVED on the body in unit {unit}" if unit else "; body NOT verified anywhere")
+                elif "item" in m:
+                    origin = "in extracted " + m["item"]
                 else:
                     origin = "assumed, prelude " + m.get("tmpl", "?")
                 found.append(f"{tag} {nm} ({origin})")
